@@ -844,8 +844,9 @@ impl Module for StakeKeeper {
                     staking_info.bonded_denom,
                 );
 
-                let full_delegation_response = if amount.amount.is_zero() {
-                    // no delegation
+                let full_delegation_response = if amount.amount.is_zero() && reward.amount.is_zero()
+                {
+                    // no delegation and nothing to withdraw
                     DelegationResponse::new(None)
                 } else {
                     DelegationResponse::new(Some(FullDelegation::new(
